@@ -515,3 +515,104 @@ where
     keyspace.send(msg).await?;
     Ok(())
 }
+
+#[cfg(feature = "verif-hooks")]
+/// Verification hooks: entry points into the repair cycle for one peer, and for
+/// the separate steps of one exchange.
+pub(crate) mod verif {
+    use super::*;
+
+    #[derive(Default)]
+    pub struct RepairTracker(pub(super) KeyspaceTracker);
+
+    impl RepairTracker {
+        pub fn forget_node(&mut self, node_id: NodeId) {
+            self.0.remove_node(node_id);
+        }
+    }
+
+    pub fn context<S: Storage>(
+        group: KeyspaceGroup<S>,
+        network: RpcNetwork,
+    ) -> ReplicationCycleContext<S> {
+        ReplicationCycleContext {
+            repair_interval: Duration::from_secs(3600),
+            group,
+            network,
+        }
+    }
+
+    /// One iteration of the repair loop against the given peers.
+    pub async fn repair_peers<S: Storage>(
+        ctx: &ReplicationCycleContext<S>,
+        peers: &BTreeMap<NodeId, SocketAddr>,
+        tracker: &mut RepairTracker,
+    ) {
+        repair_members(ctx, peers, &mut tracker.0).await
+    }
+
+    pub struct ExchangeDiff {
+        pub modified: Vec<DocumentMetadata>,
+        pub removed: Vec<DocumentMetadata>,
+        pub last_updated: HLCTimestamp,
+    }
+
+    /// Step one of an exchange: fetch the peer's state and diff it against ours.
+    pub async fn exchange_diff<S: Storage>(
+        ctx: &ReplicationCycleContext<S>,
+        keyspace: &str,
+        node_id: NodeId,
+        addr: SocketAddr,
+    ) -> Result<ExchangeDiff, String> {
+        let channel = ctx.network.get_or_connect(addr);
+        let client = ReplicationClient::<S>::new(ctx.clock().clone(), channel);
+        let diff = get_keyspace_diff(
+            keyspace.to_string(),
+            node_id.to_string(),
+            addr,
+            ctx.group.clone(),
+            client,
+        )
+        .await
+        .map_err(|e| format!("{:?}", e.cause))?;
+        Ok(ExchangeDiff {
+            modified: diff.modified.into_vec(),
+            removed: diff.removed.into_vec(),
+            last_updated: diff.last_updated,
+        })
+    }
+
+    /// The removal half of an exchange.
+    pub async fn exchange_removals<S: Storage>(
+        ctx: &ReplicationCycleContext<S>,
+        keyspace: &str,
+        removed: Vec<DocumentMetadata>,
+    ) -> Result<(), String> {
+        let keyspace = ctx.group.get_or_create_keyspace(keyspace).await;
+        handle_removals(keyspace, DocVec::from_vec(removed))
+            .await
+            .map_err(|e| e.to_string())
+    }
+
+    /// The modification half of an exchange (fetches the documents from the peer).
+    pub async fn exchange_modified<S: Storage>(
+        ctx: &ReplicationCycleContext<S>,
+        keyspace: &str,
+        node_id: NodeId,
+        addr: SocketAddr,
+        modified: Vec<DocumentMetadata>,
+    ) -> Result<(), String> {
+        let channel = ctx.network.get_or_connect(addr);
+        let keyspace = ctx.group.get_or_create_keyspace(keyspace).await;
+        let client = ReplicationClient::new(ctx.clock().clone(), channel.clone());
+        let put_ctx = PutContext {
+            progress: ProgressTracker::default(),
+            remote_node_id: node_id,
+            remote_addr: addr,
+            remote_rpc_channel: channel,
+        };
+        handle_modified(client, keyspace, DocVec::from_vec(modified), put_ctx)
+            .await
+            .map_err(|e| e.to_string())
+    }
+}
